@@ -587,3 +587,31 @@ Definition open_wfb (c : cfg) (s : machine) (lo hi : bound) : bool :=
   scan_wfb lo hi (map (look_of s) (open_mems s)) (cur_levels s) &&
   distinctb (all_entries (map (look_of s) (open_mems s)) (cur_levels s)) &&
   (total_size (map (look_of s) (open_mems s)) (cur_levels s) + 2 <=? cf_fuel c).
+
+(* ---- what the statement "the cursor stays a snapshot, writes under it included" needs *)
+(* at scan-open: the read timestamp is a sequence number already handed out, and nothing in the
+   store carries a later one (so every later write is newer than everything the cursor holds) *)
+Definition open_tsb (s : machine) : bool :=
+  (ms_vis s <=? ms_seq s)%N &&
+  forallb (fun e => (ets e <=? ms_seq s)%N) (all_entries (map (look_of s) (open_mems s)) (cur_levels s)).
+
+Fixpoint keys_distinctb (l : list key) : bool :=
+  match l with [] => true | k :: r => negb (existsb (keqb k) r) && keys_distinctb r end.
+(* the events allowed while cursor cid is held: everything, except opening or dropping that cursor;
+   a write batch does not name a key twice (the store keeps the last one; the driver hands the model
+   the batch so reduced) *)
+Definition held_ok (cid : N) (e : event) : bool :=
+  match e with
+  | EWrite b => keys_distinctb (map fst b)
+  | EOpen c0 _ _ => negb (N.eqb c0 cid)
+  | EClose c0 => negb (N.eqb c0 cid)
+  | _ => true
+  end.
+(* the loops of the cursor models are fuelled (the Rust loops are not): fuel that is enough for
+   everything the cursor holds at scan-open plus everything written while it is held *)
+Definition wlen (e : event) : Z := match e with EWrite b => len b | _ => 0%Z end.
+Fixpoint pending (es : list event) : Z := match es with [] => 0%Z | e :: r => (wlen e + pending r)%Z end.
+Definition scan_total (s : machine) : Z := Z.of_nat (total_size (map (look_of s) (open_mems s)) (cur_levels s)).
+Definition run_bound (s : machine) (es : list event) : Z := (scan_total s + 6 + pending es)%Z.
+Definition fuel_enoughb (c : cfg) (s : machine) (es : list event) : bool :=
+  ((2 * scan_total s + 2) * (run_bound s es + 4) <? Z.of_nat (cf_fuel c))%Z.
